@@ -162,6 +162,32 @@ class RealStore:
             except Exception as ex:  # noqa: BLE001
                 return f"{type(ex).__name__}: {str(ex)[:200]}"
             return sorted(out, key=lambda x: (x[0], x[1][0]["jobId"] if x[1] else ""))
+        if op == "pipeline":
+            # the real orchestration of `otel_to_pv` (which cleaning steps run, and in which order) on THIS holder: the
+            # function is called with ingest_data=False and its `fetch_data_holder` handed this run's holder (an
+            # in-memory database cannot be re-opened, and the window is the one this run's ingestion computed)
+            o2p = importlib.import_module("tel2puml.otel_to_pv.otel_to_pv")
+            cfg = self.cfgmod.load_config_from_dict({
+                "ingest_data": {"data_source": "json", "data_holder": "sql"},
+                "data_holders": {"sql": {"db_uri": self.uri, "batch_size": self.batch, "time_buffer": self.buffer}},
+                "data_sources": {"json": {"dirpath": "/nonexistent", "filepath": None, "json_per_line": False,
+                                          "jq_query": ".spans", "field_mapping": None}},
+            })
+            orig = o2p.fetch_data_holder
+            o2p.fetch_data_holder = lambda _config: self.h
+            out = []
+            import contextlib
+            import io
+            try:
+                with contextlib.redirect_stdout(io.StringIO()), contextlib.redirect_stderr(io.StringIO()):
+                    for name, streams in o2p.otel_to_pv(cfg, ingest_data=False):
+                        for pvs in streams:
+                            out.append([name, sorted((dict(p) for p in pvs), key=lambda d: d["eventId"])])
+            except Exception as ex:  # noqa: BLE001
+                return f"{type(ex).__name__}: {str(ex)[:200]}"
+            finally:
+                o2p.fetch_data_holder = orig
+            return sorted(out, key=lambda x: (x[0], x[1][0]["jobId"] if x[1] else ""))
         if op == "dump":
             with self.h.engine.connect() as c:
                 nodes = c.execute(self.sa.text(
